@@ -551,7 +551,12 @@ func MinimalKinds() []TE {
 
 // Minimal builds the program `type Only struct { F <te> }` with every other declaration of the
 // standard prelude moved out of the analysed file.
-func Minimal(id int, te TE) *Prog {
+func Minimal(id int, te TE) *Prog { return minimal(id, te, true) }
+
+// MinimalBare is Minimal without the extra string field: the field under test is the only one.
+func MinimalBare(id int, te TE) *Prog { return minimal(id, te, false) }
+
+func minimal(id int, te TE, note bool) *Prog {
 	rng := rand.New(rand.NewSource(1))
 	o := Full()
 	o.NStructs = -1
@@ -569,6 +574,10 @@ func Minimal(id int, te TE) *Prog {
 			kept = append(kept, d)
 		}
 	}
-	p.Decls = append(kept, Decl{K: "struct", Name: "Only", Fields: []Field{{Name: "F", Type: te}, {Name: "Note", Type: Basic("string"), Tag: `json:"note"`}}})
+	fields := []Field{{Name: "F", Type: te}}
+	if note {
+		fields = append(fields, Field{Name: "Note", Type: Basic("string"), Tag: `json:"note"`})
+	}
+	p.Decls = append(kept, Decl{K: "struct", Name: "Only", Fields: fields})
 	return p
 }
